@@ -112,6 +112,7 @@ type message struct {
 	hasDeadline bool
 	fn      func()
 	dup     bool
+	holds   int
 }
 
 type msgHeap []*message
@@ -154,6 +155,10 @@ type Net struct {
 
 	// Tap observes every message right before delivery, at a quiescent point.
 	Tap func(m *TapMsg)
+	// Hold lets a trigger rule postpone the delivery of a unary request (fault placement:
+	// "deliver NewTerm while the node is in the middle of an append").  Returning true
+	// re-queues the message a little later, at most maxHolds times.
+	Hold func(m *TapMsg, holds int) bool
 	// TapSent observes every message at the first quiescent point after it was sent.
 	TapSent func(m *TapMsg)
 	// Quiesce observers: called by the dispatcher after each delivered event.
@@ -529,6 +534,12 @@ func (n *Net) deliver(m *message) {
 			n.r.Count("net_unary_req_lost", 1)
 			n.tap(m, dst, true)
 			c.failLater(status.New(codes.Unavailable, "transport: connection lost"), 5*time.Second+n.detectDelay(m.id))
+			return
+		}
+		if n.Hold != nil && m.holds < 400 && n.Hold(n.mkTap(m, dst, false), m.holds) {
+			m.holds++
+			m.at = n.r.Now() + 150*time.Microsecond
+			heap.Push(&n.q, m)
 			return
 		}
 		n.r.Logf("deliver %s", m.id)
